@@ -349,6 +349,10 @@ func OpenFile(name string, flag int, perm FileMode) (*File, error) {
 	if err := fault(w, "open", kind, rel); err != nil {
 		return nil, err
 	}
+	if w.FDLimit > 0 && w.HandleCount() >= w.FDLimit {
+		w.Probe("open-refused-at-descriptor-limit")
+		return nil, &os.PathError{Op: "open", Path: name, Err: syscall.EMFILE}
+	}
 	var oldSize int64 = -1
 	if existed && flag&os.O_TRUNC != 0 {
 		if fi, err := os.Stat(name); err == nil && fi.Mode().IsRegular() {
